@@ -32,6 +32,15 @@ body += ["## 8. Per-property sections", ""]
 for i in range(1, 19):
     pid = f"C{i:02d}"
     rep = rd(f"reports/{pid}.md").strip()
+    # demote the report's own headings below "### Cxx" (outside code fences)
+    out_lines, fence = [], False
+    for ln in rep.split("\n"):
+        if ln.lstrip().startswith("```"):
+            fence = not fence
+        if not fence and ln.startswith("#"):
+            ln = "###" + ln if ln.startswith("# ") else "##" + ln
+        out_lines.append(ln)
+    rep = "\n".join(out_lines)
     body += [f"### {pid}", "", rep if rep else "_(report not written yet — see vlib/claims/%s.json if claimed)_" % pid, ""]
 body += ["## 9. Seeded faults and which checks catch them", "",
          "Faults were written by independent sub-agents that saw only the property text and a scratch worktree; each was confirmed (builds, 367 tests pass, its demonstration fails with and passes without the change) before being kept under `seeded/<id>/`. `vlib/seed_matrix.py` applies each to `/repo` under the lock, runs the check(s) and reverts.", "",
